@@ -227,6 +227,73 @@ def _bounded(space, za, zb, w):
     return space.smt_fork(z3.And(za >= 0, za < lim, zb >= 0, zb < lim), probability_true=0.95)
 
 
+_DEC = {"space": None, "memo": {}}
+
+
+def decompose_n(space, ze, nbits):
+    """nbits fresh Bools with ze == sum(b_k * 2**k) (binary expansion, unique for 0 <= ze < 2**nbits); per-path memo."""
+    if z3.is_int_value(ze):
+        v = ze.as_long()
+        return [z3.BoolVal(bool((v >> k) & 1)) for k in range(nbits)]
+    if space is None:
+        raise ValueError("symbolic term without a state space")
+    if _DEC["space"] is not space:
+        _DEC["space"] = space
+        _DEC["memo"] = {}
+    memo = _DEC["memo"]
+    key = (ze.get_id(), nbits)
+    hit = memo.get(key)
+    if hit is not None and z3.eq(hit[0], ze):
+        return hit[1]
+    # canonical form: two syntactically different spellings of the same polynomial (e.g. struct.unpack's
+    # and the harness's b[i]*256+b[i+1]) share one expansion
+    ze = z3.simplify(ze)
+    key = (ze.get_id(), nbits)
+    hit = memo.get(key)
+    if hit is not None and z3.eq(hit[0], ze):
+        return hit[1]
+    n = len(memo)
+    bits = [z3.Bool("bw_%d_%d" % (n, k)) for k in range(nbits)]
+    space.add(ze == z3.Sum([z3.If(b, z3.IntVal(1 << k), z3.IntVal(0)) for k, b in enumerate(bits)]))
+    memo[key] = (ze, bits)
+    return bits
+
+
+def _from_bits(space, bits):
+    """Int term sum(b_k 2^k); remembered so that later bit operations on it reuse the Boolean b_k directly"""
+    r = z3.Sum([z3.If(c, z3.IntVal(1 << k), z3.IntVal(0)) for k, c in enumerate(bits)])
+    if space is not None:
+        if _DEC["space"] is not space:
+            _DEC["space"] = space
+            _DEC["memo"] = {}
+        _DEC["memo"][(r.get_id(), len(bits))] = (r, list(bits))
+    return r
+
+
+def _bitwise(space, op, za, zb, w, negate_b=False):
+    xa, xb = decompose_n(space, za, w), decompose_n(space, zb, w)
+    if negate_b:
+        xb = [z3.Not(t) for t in xb]
+    bits = []
+    for k in range(w):
+        if op is ops.and_:
+            bits.append(z3.And(xa[k], xb[k]))
+        elif op is ops.or_:
+            bits.append(z3.Or(xa[k], xb[k]))
+        else:
+            bits.append(z3.Xor(xa[k], xb[k]))
+    return _from_bits(space, bits)
+
+
+def bitnot16(a):
+    with NoTracing():
+        za = _z(a)
+        if z3.is_int_value(za):
+            return 65535 - za.as_long()
+        space = context_statespace()
+        return SymbolicInt(_from_bits(space, [z3.Not(t) for t in decompose_n(space, za, 16)]))
+
+
 def _bv_binop(op, a, b):
     with NoTracing():
         za, zb = _z(a), _z(b)
@@ -235,9 +302,15 @@ def _bv_binop(op, a, b):
         space = context_statespace()
         for w in (BV_W, 32):
             if _bounded(space, za, zb, w):
-                x, y = z3.Int2BV(za, w), z3.Int2BV(zb, w)
-                r = {ops.and_: x & y, ops.or_: x | y, ops.xor: x ^ y}[op]
-                return SymbolicInt(z3.BV2Int(r, False))
+                return SymbolicInt(_bitwise(space, op, za, zb, w))
+        if op is ops.and_:
+            # x & ~c == x - (x & c) for x, c >= 0  (Python's ~c is -c-1): masks written as `& ~mask`
+            for w in (BV_W, 32):
+                lim = z3.IntVal(2 ** w)
+                if space.smt_fork(z3.And(za >= 0, za < lim, zb < 0, zb >= -lim), probability_true=0.9):
+                    return SymbolicInt(_bitwise(space, op, za, z3.simplify(-zb - 1), w, negate_b=True))
+                if space.smt_fork(z3.And(zb >= 0, zb < lim, za < 0, za >= -lim), probability_true=0.9):
+                    return SymbolicInt(_bitwise(space, op, zb, z3.simplify(-za - 1), w, negate_b=True))
         return op(realize(a), realize(b))
 
 
@@ -369,6 +442,33 @@ def bit_of(byte, k):
     return (byte >> k) & 1 == 1
 
 
+def ref_pack_bits(bits):
+    bits = list(bits)
+    with NoTracing():
+        zb = []
+        for b in bits:
+            t = _zb(b)
+            if t is None:
+                raise TypeError("bit value")
+            zb.append(t)
+        out = []
+        for j in range(0, len(zb), 8):
+            v = z3.IntVal(0)
+            for k, t in enumerate(zb[j:j + 8]):
+                v = v + z3.If(t, z3.IntVal(1 << k), z3.IntVal(0))
+            out.append(SymbolicInt(v))
+        return SymbolicBytes(out)
+
+
+def bv16(a, b, op):
+    with NoTracing():
+        za, zb = _z(a), _z(b)
+        if z3.is_int_value(za) and z3.is_int_value(zb):
+            x, y = za.as_long(), zb.as_long()
+            return (x & y) if op == "and" else (x | y)
+        return SymbolicInt(_bitwise(context_statespace(), ops.and_ if op == "and" else ops.or_, za, zb, 16))
+
+
 def _make_unpack_contract(real):
     def unpack_bitstring(string):
         elems = _elements(string)
@@ -407,7 +507,8 @@ def install(INSTALLED, contracts=()):
     _PATCH_REGISTRATIONS[struct.Struct.pack] = _struct_pack_method
     INSTALLED["models"].append("struct.Struct.pack (six.int2byte) -> CrossHair's struct.pack model")
     _install_bitops()
-    INSTALLED["models"].append("int |, ^, & (both symbolic) on values in [0,2**16) or [0,2**32): Int2BV/BV2Int; outside that range concretised")
+    INSTALLED["models"].append("x & ~c (Python ~c = -c-1) modelled bitwise as x_k AND NOT c_k for 0 <= x, c < 2**16 / 2**32")
+    INSTALLED["models"].append("int |, ^, & (both symbolic) on values in [0,2**16) or [0,2**32): per-bit Boolean expansion (x == sum b_k 2^k) and bitwise connectives; outside that range concretised")
     import pymodbus.utilities as U
     if "crc" in contracts:
         _PATCH_REGISTRATIONS[U.computeCRC] = _make_crc_contract(U.computeCRC)
@@ -491,9 +592,11 @@ def validate_models(seed=0):
     for (i, j) in cases:
         for name, pyop in (("and", ops.and_), ("or", ops.or_), ("xor", ops.xor)):
             n += 1
-            X, Y = z3.Int2BV(z3.IntVal(i), 16), z3.Int2BV(z3.IntVal(j), 16)
-            r = {"and": X & Y, "or": X | Y, "xor": X ^ Y}[name]
-            got = z3.simplify(z3.BV2Int(r, False)).as_long()
+            got = z3.simplify(_bitwise(None, {"and": ops.and_, "or": ops.or_, "xor": ops.xor}[name], z3.IntVal(i), z3.IntVal(j), 16)).as_long()
             if got != pyop(i, j):
                 bad.append((name, i, j, got))
+    for (i, j) in cases[:100]:
+        n += 1
+        if (i & ~j) != i - (i & j):
+            bad.append(("and-not identity", i, j))
     return n, bad
